@@ -34,6 +34,9 @@ func drawC07(t *rapid.T) c07Scenario {
 	}
 	sc.Plan.PauseClose = rapid.Bool().Draw(t, "pauseClose")
 	sc.Plan.CloseTwice = rapid.IntRange(0, 3).Draw(t, "closeTwice") == 0
+	if sc.Script.Config.Disk && rapid.IntRange(0, 3).Draw(t, "breakDir") == 0 {
+		sc.Plan.BreakDir = rapid.IntRange(1, 60).Draw(t, "breakDirBefore")
+	}
 	return sc
 }
 
@@ -41,6 +44,11 @@ func execC07(sc c07Scenario) core.Outcome {
 	var o core.Outcome
 	r := mux.RunC07(sc.Script, sc.Plan, os.Getenv("VERIF_TMP"))
 	if r.Skip != "" {
+		reason := r.Skip
+		if len(reason) > 60 {
+			reason = reason[:60]
+		}
+		o.Labels = append(o.Labels, "skip:"+reason)
 		o.Skip = true
 		return o
 	}
@@ -61,6 +69,12 @@ func execC07(sc c07Scenario) core.Outcome {
 	}
 	if r.ClosedTwice {
 		o.Labels = append(o.Labels, "closed-twice")
+	}
+	if r.DirBroken {
+		o.Labels = append(o.Labels, "directory-deleted")
+	}
+	if r.WriteFailed {
+		o.Labels = append(o.Labels, "write-failed-on-storage")
 	}
 	if r.SecondClosePanicked {
 		o.Labels = append(o.Labels, "second-close-panicked(outside the statement)")
